@@ -74,6 +74,7 @@ type Obligation struct {
 	Res solveResult
 	All []solveResult
 	Cross []string // thorough: answers of the other solvers on the whole goal
+	Explore string // thorough: result of attempting an unclaimed obligation of a partial contract
 }
 
 // rdEvent records one modelled Read/ReadFull call (for building scripted readers in replays).
